@@ -147,6 +147,37 @@ def near_duplicate(draw, b, valstrat, forbidden=()):
     return nb
 
 
+CONFUSABLE = ['_', ':', '|', '?', '*', '<', '>', '"', '\\', ' ', '.', ',', "'", '=', '+', '-', '/']
+
+
+@st.composite
+def confusable_pair(draw, b, forbidden=()):
+    """two bindings equal to b except that one string argument reads <t>c1<u> in one and <t>c2<u> in the other"""
+    import copy
+    slots = [('named', i) for i in range(len(b.get('named', []))) if b['named'][i][1][0] == 's'] + \
+            [('xpos', i) for i in range(len(b.get('xpos', []))) if b['xpos'][i][0] == 's'] + \
+            [('xkw', i) for i in range(len(b.get('xkw', []))) if b['xkw'][i][1][0] == 's']
+    if not slots:
+        return []
+    kind, i = slots[draw(st.integers(0, len(slots) - 1))]
+    cur = b[kind][i] if kind == 'xpos' else b[kind][i][1]
+    txt = cur[1]
+    pos = draw(st.integers(0, len(txt)))
+    chars = [c for c in CONFUSABLE if c not in forbidden]
+    c1 = draw(st.sampled_from(chars))
+    c2 = draw(st.sampled_from([c for c in chars if c != c1]))
+    out = []
+    for c in (c1, c2):
+        nb = copy.deepcopy(b)
+        new = ['s', txt[:pos] + c + txt[pos:]]
+        if kind == 'xpos':
+            nb[kind][i] = new
+        else:
+            nb[kind][i][1] = new
+        out.append(nb)
+    return out
+
+
 def op_table(npool):
     idx = st.integers(0, max(0, npool - 1))
     form = st.integers(0, 41)
@@ -234,14 +265,20 @@ def cache_cases(draw, modules=('std', 'safe'), algos=tuple(H.ALGOS), maxsizes=(1
         valstrat = st.one_of(*([near] * float_pct + [valstrat] * (10 - float_pct)))
     npool = draw(st.integers(pool[0], pool[1]))
     pool_b = []
+    forbidden = ('-', '/') if key_req in ('fname', 'strsafe') else (('☃', 'é') if key_req == 'evalable' else ())
     for _ in range(npool):
         if pool_b and draw(st.integers(0, 9)) < 4:
-            b = draw(near_duplicate(pool_b[draw(st.integers(0, len(pool_b) - 1))], valstrat,
-                                   forbidden=('-', '/') if key_req in ('fname', 'strsafe') else (('☃', 'é') if key_req == 'evalable' else ())))
+            b = draw(near_duplicate(pool_b[draw(st.integers(0, len(pool_b) - 1))], valstrat, forbidden=forbidden))
         else:
             b = draw(bindings(sig, valstrat))
         if b not in pool_b:
             pool_b.append(b)
+    if draw(st.integers(0, 9)) < 3:
+        # a pair of calls that differ ONLY in one 'confusable' character of one string argument (x:y / x|y / x_y ...):
+        # the shape that exposes a lossy key -> storage-name mapping
+        for b in draw(confusable_pair(pool_b[draw(st.integers(0, len(pool_b) - 1))], forbidden)):
+            if b not in pool_b:
+                pool_b.append(b)
     npool = len(pool_b)
     ops = draw(op_lists(w, npool, min_ops, max_ops))
     if prefill_pct and H.backend_archived(backend) and draw(st.integers(0, 99)) < prefill_pct:
